@@ -5,6 +5,7 @@ import Anysystem.Proofs.R4
 import Anysystem.Proofs.R5Main
 import Anysystem.Proofs.R6Demo
 import Anysystem.Proofs.R7Demo
+import Anysystem.Proofs.D17Witness
 /-!
 # C04 — The simulator's own execution is always among the model-checked ones
 
@@ -73,5 +74,19 @@ namespace Anysystem
 #check @R7Demo.fateH_fresh
 #check @R7Demo.fate_step
 #check @R7Demo.fates_covered_demo
+
+
+/- finding D17 (kernel-checked witness, `Proofs/D17Witness.lean`): without `FreshSendsFrom` the statement is false of the model —
+   and of the real code, where the same scenario was run (`corpus/snap/D17_identical_inflight_blocks_corruption.txt`).  An
+   identical message in flight at the snapshot (`noFail`) blocks the later identical message (corruptible) in the checker's
+   FIFO of identical messages; the exploration from the snapshot ends `Ok` (DFS and BFS) without ever evaluating the state in
+   which the corrupted newer copy was received first, which the simulator reaches after two steps.  `D17_only_freshness_missing`:
+   every other hypothesis of `sim_run_covered_fates` holds on this instance. -/
+#check @D17.D17_witness
+#check @D17.D17_uncovered
+#check @D17.D17_uncovered3
+#check @D17.D17_not_fresh
+#check @D17.D17_blocked
+#check @D17.D17_only_freshness_missing
 
 end Anysystem
